@@ -72,6 +72,20 @@ func eventDatagram(index uint32) []byte {
 
 func checkOverlap(c overlapCase) *rp.Fail {
 	ev.Case("running-listener/"+c.Kind, true, fmt.Sprintf("%+v", c))
+	f := runOverlap(c)
+	if f != nil {
+		// the waits are generous but finite: a failure has to repeat
+		if f2 := runOverlap(c); f2 == nil {
+			ev.Inconclusive(1)
+			return nil
+		} else {
+			f = f2
+		}
+	}
+	return f
+}
+
+func runOverlap(c overlapCase) *rp.Fail {
 	port, err := farm.FreePort([4]byte{127, 0, 0, 1})
 	if err != nil {
 		return nil
